@@ -15,6 +15,7 @@ func init() {
 			RuleDef{Name: "POOL-BARE", What: "every decompressor sent to the read-ahead pool is new or had its block taken by wait() (void if the worker tests the error before deriving the next offset); added after seed C01-d", Floor: 4, Run: rulePoolBare},
 			RuleDef{Name: "CUR-COUNT", What: "countReader.off advances by exactly what was consumed (Read, ReadByte, seek)", Floor: 3, Run: ruleCurCount},
 			bgzfConst, bsize,
+			RuleDef{Name: "MEMBER-ACCEPT", What: "bgzf nextBlockAt hands every member that readMember read without error to the decompressor: the reader refuses nothing the writer's BSIZE admits (added after eighth-round seed C01-j: a bound on the deflate stream's length that incompressible data exceeds)", Floor: 1, Run: ruleMemberAccept},
 			RuleDef{Name: "PATH-NEED", What: "the reader accepts every member size a conforming writer can produce (1..MaxBlockSize) and classifies 0 / negative / missing BSIZE", Floor: 1, Run: ruleNeed},
 			RuleDef{Name: "PATH-READFULL", What: "member body = exactly BSIZE+1 minus consumed header bytes", Floor: 2, Run: ruleReadFull},
 			RuleDef{Name: "PATH-LASTCHUNK", What: "Read/ReadByte skip every empty member (emptiness re-tested after each block change) before consuming", Floor: 2, Run: ruleLastChunk}),
@@ -36,6 +37,7 @@ func init() {
 		Rules: append(writerRules("W1", "W2", "W3", "W4", "W5", "W6", "W9", "PATH-WAIT"),
 			bsize,
 			RuleDef{Name: "OWN-WRITE-ARG", What: "Writer.Write only measures, reslices and copies from its argument (shared with C01/C08; under C12 since sixth-round seed C12-h: blocks arrive whole and in order but hold bytes the caller wrote into its buffer later)", Floor: 1, Run: ruleWriteArgOwned},
+			RuleDef{Name: "PATH-BAMCLOSE", What: "bam.Writer.Close closes the BGZF writer on every path – Flush alone does not wait and writes no EOF block (added after eighth-round seed C12-j)", Floor: 1, Run: rulePathBamClose},
 			RuleDef{Name: "PATH-BAMNEW", What: "bam.NewWriterLevel: writeHeader, Flush, Wait in this order on every path; writer returned only if Wait's error is nil", Floor: 1, Run: ruleBamNew}),
 		Explanation: "W1–W4: blocks reach the underlying writer whole, from one goroutine, in queue (= write) order for every number of compressors and completion order; W5 in the reading \"qwg.Done only after the block's bytes were handed to the underlying writer and it returned, and after a failure was latched\"; PATH-WAIT: Wait blocks on the pending-write group whenever no error is latched and then reports the latch – so Flush;Wait == nil implies every block queued before has been written; W9: after a failed block no later block is written (the delivered bytes stay a prefix); W6 the same for Close; PATH-BAMNEW the guarantee bam.NewWriter relies on.",
 		NotDecided:  "that the decoded prefix equals the written prefix byte for byte (value-level).",
